@@ -2,6 +2,7 @@ package main
 
 import (
 	"fmt"
+	"os"
 	"sort"
 	"strings"
 	"sync"
@@ -18,6 +19,7 @@ type Oblig struct {
 	Goal    *T
 	Assume  []*T
 	Skolems []*T
+	Defs    []*T // definitional side constraints of the goal (fresh floors)
 	Shape   string
 	PathNo  int
 	Expect  string // "unsat" (default: goal must follow) or "sat" (cover)
@@ -50,15 +52,40 @@ func (o *Oblig) ok() bool {
 	return o.Trivial || o.Res.Status == "unsat"
 }
 
+var quantLemmas = os.Getenv("GOVC_QUANT") == "1"
+
 func (e *Exec) emit(s *State, ob *Oblig) {
 	ob.Func = e.fnName()
 	if ob.Tags == nil && e.conUnder != nil {
 		ob.Tags = e.conUnder.Props
 	}
-	ob.Assume = append([]*T{}, s.PC...)
+	ob.Assume = append(append([]*T{}, s.PC...), ob.Defs...)
 	ob.Shape = e.scenario
 	// instantiate assumed quantified facts with the goal's skolems
-	for _, l := range s.Lemmas {
+	for li, l := range s.Lemmas {
+		// the quantified fact itself (only on request: slower, MBQI) ...
+		if quantLemmas {
+			func() {
+				defer func() {
+					if r := recover(); r != nil {
+						if _, ok := r.(specPanic); ok {
+							return
+						}
+						panic(r)
+					}
+				}()
+				qv := mkVar(fmt.Sprintf("q!%s!%d", l.Var, li), l.Sort)
+				env := copyEnv(l.Env)
+				env[l.Var] = qv
+				post := l.Post
+				if post == nil {
+					post = s
+				}
+				ctx := &EvalCtx{sp: e.w.specs, env: env, st: post, old: l.Pre, assume: true, ex: e, origin: l.Origin}
+				ob.Assume = append(ob.Assume, mkForall(qv, ctx.evalClause(l.Body)))
+			}()
+		}
+		// ... plus its instances at the goal's skolems
 		for _, sk := range ob.Skolems {
 			var inst *T
 			switch {
@@ -84,9 +111,11 @@ func (e *Exec) emit(s *State, ob *Oblig) {
 				if post == nil {
 					post = s
 				}
-				ctx := &EvalCtx{sp: e.w.specs, env: env, st: post, old: l.Pre, assume: true, ex: e, origin: l.Origin}
+				var defs []*T
+				ctx := &EvalCtx{sp: e.w.specs, env: env, st: post, old: l.Pre, assume: true, ex: e, origin: l.Origin, defs: &defs}
 				t := ctx.evalClause(l.Body)
 				ob.Assume = append(ob.Assume, t)
+				ob.Assume = append(ob.Assume, defs...)
 				ob.Notes = append(ob.Notes, "instantiated "+l.Origin+" at "+sk.String())
 			}()
 		}
@@ -114,6 +143,10 @@ func discharge(obs []*Oblig, thorough bool, timeout time.Duration, workers int) 
 					continue
 				}
 				ob.Res = solve(script(ob.Assume, ob.Goal, ""), thorough, timeout)
+				if d := os.Getenv("GOVC_DUMP"); d != "" && !ob.ok() {
+					os.MkdirAll(d, 0o755)
+					os.WriteFile(fmt.Sprintf("%s/%s-%d.smt2", d, sanitize(ob.Name), ob.PathNo), []byte(script(ob.Assume, ob.Goal, "")+"; "+ob.Res.Status+" shape "+ob.Shape+"\n"), 0o644)
+				}
 			}
 		}()
 	}
